@@ -128,3 +128,10 @@ Definition Known_C15_empty_complex (s : store) : bool :=
 
 Definition known_class (s : store) : nat :=
   if Known_C15_tempid s then 1 else if Known_C15_empty_complex s then 2 else 0.
+
+(* the selector kinds of the API (0 simple, 1 Multi, 2 Composite, 3 Directional); a simple target
+   is one selector *)
+Definition shape_b (a : ann) : bool :=
+  (a_kind a <=? 3) && (if Nat.eqb (a_kind a) 0 then Nat.eqb (length (a_leaves a)) 1 else true).
+Definition hyps_ok (s : store) : bool :=
+  store_ok s && forallb (fun ha => shape_b (snd ha)) (live_items (anns s)).
